@@ -194,3 +194,36 @@ Proof.
   - intros Q E. destruct (wg_quiescent s R Q) as [_ Cl]. destruct (Cl a) as [X|[X|(_ & W & N & _)]]; try congruence. auto.
   - intro E. pose proof (WJ_a _ (winvj_reach _ R) a) as J. rewrite E in J. apply (dead_only_if_cancelled _ a (wreach_reach _ R) J).
 Qed.
+
+(* ---------------------------------------------------------------------------------------- non-vacuity *)
+(* quiescence needs to be checked for the five shapes of an actor's own transitions only *)
+Lemma wquiescent_by_cases s :
+  (forall a, wstep s (WStep a) = None /\ wstep s (WInner a (Step a)) = None /\ wstep s (WInner a (Resume a)) = None /\
+             wstep s (WInner a (Choose a true)) = None /\ wstep s (WInner a (Choose a false)) = None) -> WQuiescent s.
+Proof.
+  intros H a. destruct (H a) as (H1 & H2 & H3 & H4 & H5). split; [exact H1|]. intro c.
+  destruct (inner_ok a c) eqn:Ok; [| unfold wstep; rewrite Ok; reflexivity].
+  destruct c; cbn in Ok; try discriminate; apply Nat.eqb_eq in Ok; subst; auto. destruct e; auto.
+Qed.
+
+(* the creator gives a clone to actor 1 and waits: it is parked in a quiescent state while actor 1's handle is alive *)
+Definition wsched_park : list waction :=
+  [WClone 0; WStep 0; WStep 0; WGive 0 1] ++
+  [WWait 0 false; WStep 0; WStep 0; WStep 0; WStep 0; WStep 0; WStep 0; WStep 0] ++ repeat (WInner 0 (Step 0)) 4.
+Example wg_parked_while_handle_alive : exists s, wrun winit wsched_park = Some s /\ WReach s /\ WQuiescent s /\
+  wpc s 0 = WLw /\ apc (A (wcs s) 0) = WW /\ hl s = [1] /\ wcnt s = 1.
+Proof.
+  destruct (wrun winit wsched_park) as [s|] eqn:E; [|vm_compute in E; discriminate].
+  exists s. split; [reflexivity|]. split; [eapply wreach_wrun; [constructor | exact E]|].
+  vm_compute in E. inversion E; subst; clear E. split; [|cbn; repeat split; reflexivity].
+  apply wquiescent_by_cases. intro a. destruct a as [|[|a]]; vm_compute; repeat split; try reflexivity; match goal with |- (if ?c then _ else _) = _ => destruct c; reflexivity end.
+Qed.
+(* ... and after actor 1 has dropped its handle the wait has returned: everybody is outside, nothing is enabled *)
+Example wg_all_returned : exists s, wrun winit (wsched ++ [WStep 0]) = Some s /\ WReach s /\ WQuiescent s /\
+  hl s = [] /\ wpc s 0 = WIdle /\ wpc s 1 = WIdle /\ early s = false.
+Proof.
+  destruct (wrun winit (wsched ++ [WStep 0])) as [s|] eqn:E; [|vm_compute in E; discriminate].
+  exists s. split; [reflexivity|]. split; [eapply wreach_wrun; [constructor | exact E]|].
+  vm_compute in E. inversion E; subst; clear E. split; [|cbn; repeat split; reflexivity].
+  apply wquiescent_by_cases. intro a. destruct a as [|[|a]]; vm_compute; repeat split; try reflexivity; match goal with |- (if ?c then _ else _) = _ => destruct c; reflexivity end.
+Qed.
